@@ -554,7 +554,18 @@ def depth_budget_rule(model, rep, rule: str):
 
     budgets = []     # (value or None, where)
 
-    def walk_function(fi, env, depth):
+    def enclosing_with_item(par, start, name):
+        cur = start
+        while cur in par:
+            cur = par[cur]
+            if isinstance(cur, _ast.With):
+                for it in cur.items:
+                    if isinstance(it.optional_vars, _ast.Name) and it.optional_vars.id == name and isinstance(it.context_expr, _ast.Call):
+                        return it
+        return None
+
+    def walk_function(fi, env, depth, guards=None):
+        guards = guards or {}        # parameter name -> (with item, environment, FunctionInfo) of a loop guard made by the caller and handed in
         par = {}
         for n in _ast.walk(fi.node):
             for ch in _ast.iter_child_nodes(n):
@@ -563,26 +574,23 @@ def depth_budget_rule(model, rep, rule: str):
         for n in _ast.walk(fi.node):
             if isinstance(n, _ast.While):
                 # guards named in the test
-                guards = [c for c in _ast.walk(n.test) if isinstance(c, _ast.Call) and isinstance(c.func, _ast.Attribute) and isinstance(c.func.value, _ast.Name)]
+                guard_calls = [c for c in _ast.walk(n.test) if isinstance(c, _ast.Call) and isinstance(c.func, _ast.Attribute) and isinstance(c.func.value, _ast.Name)]
                 bound_here = INF
-                for g in guards:
-                    # find the with item binding that name
-                    cur, item = n, None
-                    while cur in par and item is None:
-                        cur = par[cur]
-                        if isinstance(cur, _ast.With):
-                            for it in cur.items:
-                                if isinstance(it.optional_vars, _ast.Name) and it.optional_vars.id == g.func.value.id and isinstance(it.context_expr, _ast.Call):
-                                    item = it
+                for g in guard_calls:
+                    # find the with item binding that name (here, or in the caller when the guard object is a parameter)
+                    item = enclosing_with_item(par, n, g.func.value.id)
+                    g_env, g_fi = env, fi
+                    if item is None and g.func.value.id in guards:
+                        item, g_env, g_fi = guards[g.func.value.id]
                     if item is None:
                         continue
                     kname = item.context_expr.func.id if isinstance(item.context_expr.func, _ast.Name) else item.context_expr.func.attr if isinstance(item.context_expr.func, _ast.Attribute) else None
-                    tgt = model.lookup_symbol(fi.module, kname) if kname else None
+                    tgt = model.lookup_symbol(g_fi.module, kname) if kname else None
                     from ..model import ClassInfo as _CI
                     if not isinstance(tgt, _CI):
                         budgets.append((None, f"{fi.qualname}: loop guard {kname} not resolved"))
                         continue
-                    fields = guard_budget(tgt, item.context_expr, env, fi.module)
+                    fields = guard_budget(tgt, item.context_expr, g_env, g_fi.module)
                     m = tgt.resolve(g.func.attr)
                     limit = None
                     if m is not None and fields is not None:
@@ -602,7 +610,7 @@ def depth_budget_rule(model, rep, rule: str):
                     budgets.append((limit, f"{fi.qualname}: while guarded by {kname}.{g.func.attr}() -> {limit}"))
                     if limit is not None:
                         bound_here = min(bound_here, limit)
-                if not guards:
+                if not guard_calls:
                     budgets.append((INF, f"{fi.qualname}: unguarded while"))
         # helpers of the same class the walk runs in (generators it iterates, functions it calls)
         if depth < 2 and fi.cls is not None:
@@ -619,7 +627,19 @@ def depth_budget_rule(model, rep, rule: str):
                                 v = const_eval(dflt[p_], {}, h.module)
                                 if v is not None:
                                     henv[p_] = v
-                        walk_function(h, henv, depth + 1)
+                        # loop guards handed in as arguments
+                        hguards = {}
+                        for i_, a_ in enumerate(n.args):
+                            if isinstance(a_, _ast.Name) and i_ < len(params):
+                                it_ = enclosing_with_item(par, n, a_.id)
+                                if it_ is not None:
+                                    hguards[params[i_]] = (it_, env, fi)
+                        for kw_ in n.keywords:
+                            if kw_.arg in params and isinstance(kw_.value, _ast.Name):
+                                it_ = enclosing_with_item(par, n, kw_.value.id)
+                                if it_ is not None:
+                                    hguards[kw_.arg] = (it_, env, fi)
+                        walk_function(h, henv, depth + 1, hguards)
 
     walk_function(f, {}, 0)
     if not budgets:
